@@ -12,7 +12,7 @@ ROOT = os.path.dirname(os.path.dirname(os.path.abspath(__file__)))
 ENV = dict(os.environ, GOFLAGS="-mod=mod", GOPROXY="off", GOSUMDB="off", GOTOOLCHAIN="local")
 
 def sh(cmd, cwd, timeout=900):
-    p = subprocess.run(cmd, shell=True, cwd=cwd, env=ENV, capture_output=True, text=True, timeout=timeout)
+    p = subprocess.run(cmd, shell=True, cwd=cwd, env=ENV, capture_output=True, text=True, errors="replace", timeout=timeout)
     return p.returncode, (p.stdout + p.stderr)
 
 src, sid, props = sys.argv[1], sys.argv[2], sys.argv[3:]
@@ -52,11 +52,11 @@ ok = meta.get("patch_applies") and meta.get("suite_passes_with_patch") and meta.
 meta["confirmed"] = bool(ok)
 meta["checks"] = {}
 if ok:
-    assert subprocess.run(["git", "-C", "/repo", "status", "--porcelain"], capture_output=True, text=True).stdout.strip() == "", "/repo is not clean"
+    assert subprocess.run(["git", "-C", "/repo", "status", "--porcelain"], capture_output=True, text=True, errors="replace").stdout.strip() == "", "/repo is not clean"
     subprocess.run(["git", "-C", "/repo", "apply", patch], check=True)
     try:
         for prop in props:
-            r = subprocess.run([os.path.join(ROOT, "check"), prop], capture_output=True, text=True, cwd=ROOT)
+            r = subprocess.run([os.path.join(ROOT, "check"), prop], capture_output=True, text=True, errors="replace", cwd=ROOT)
             caught = r.returncode == 1 and ("VIOLATION property=" + prop) in r.stdout
             meta["checks"][prop] = {"exit": r.returncode, "caught": caught, "tail": r.stdout[-700:]}
             print(sid, prop, "CAUGHT" if caught else "MISSED (exit %d)" % r.returncode, flush=True)
